@@ -54,6 +54,10 @@ impl Proposal<f64, f64> for ObservableProposal {
 
 #[derive(Debug, Clone, Serialize, Deserialize)]
 pub struct Case {
+    /// the proposal prototype has already produced this many candidates before it is handed to
+    /// the sampler (a proposal object that was used before is a legitimate input)
+    #[serde(default)]
+    pub proto_used: usize,
     /// 0 MH + IsotropicGaussian, 1 MH + observable user proposal, 2 HMC, 3 NUTS
     pub kind: u8,
     pub chains: usize,
@@ -74,9 +78,11 @@ fn strategy() -> BoxedStrategy<Case> {
         any::<u64>(),
         any::<bool>(),
         1usize..6,
-        (-2.0f64..2.0, -2.0f64..2.0),
+        (-2.0f64..2.0, -2.0f64..2.0, prop_oneof![2 => Just(0usize), 1 => 1usize..5]),
     )
-        .prop_map(|(kind, chains, seeded, seed, proto_seed, proto_seeded, steps, start)| Case {
+        .prop_map(|(kind, chains, seeded, seed, proto_seed, proto_seeded, steps, (s0, s1, proto_used))| (kind, chains, seeded, seed, proto_seed, proto_seeded, steps, (s0, s1), proto_used))
+        .prop_map(|(kind, chains, seeded, seed, proto_seed, proto_seeded, steps, start, proto_used)| Case {
+            proto_used,
             kind,
             chains,
             seeded,
@@ -118,6 +124,12 @@ fn check(c: &Case, cov: &mut Cov) -> CheckResult {
             if c.proto_seeded {
                 proto = proto.set_seed(c.proto_seed);
             }
+            for _ in 0..c.proto_used {
+                let _ = proto.sample(&[0.0, 0.0, 0.0]);
+            }
+            if c.proto_used > 0 {
+                cov.class("proposal-prototype-used-before");
+            }
             let build = || no_panic(|| {
                 let s = MetropolisHastings::new(target.clone(), proto.clone(), vec![x0.clone(); n]);
                 if c.seeded {
@@ -130,6 +142,29 @@ fn check(c: &Case, cov: &mut Cov) -> CheckResult {
             // (i) the next proposals from the common state
             let firsts: Vec<Vec<u64>> = s.chains.iter().map(|ch| ch.proposal.clone().sample(&x0).iter().map(|v| v.to_bits()).collect()).collect();
             pairwise_distinct(&firsts, &format!("mh-proposal-noise-shared {tag}"), "first proposal from the common start state")?;
+            // ... and so are the individual noise coordinates (a shared look-ahead buffer would
+            // repeat single variates even if whole vectors differ)
+            let mut coords: Vec<(usize, u64)> = vec![];
+            for (i, ch) in s.chains.iter().enumerate() {
+                let mut p = ch.proposal.clone();
+                for _ in 0..3 {
+                    for v in p.sample(&[0.0, 0.0]) {
+                        coords.push((i, v.to_bits()));
+                    }
+                }
+            }
+            for a in 0..coords.len() {
+                for b in a + 1..coords.len() {
+                    ensure!(
+                        coords[a].0 == coords[b].0 || coords[a].1 != coords[b].1,
+                        &format!("mh-proposal-noise-shared {tag}"),
+                        "chains {} and {} receive the identical proposal noise variate {}",
+                        coords[a].0,
+                        coords[b].0,
+                        f64::from_bits(coords[a].1)
+                    );
+                }
+            }
             // acceptance generators
             let acc: Vec<[u64; 2]> = s.chains.iter().map(|ch| peek(&ch.rng)).collect();
             pairwise_distinct(&acc, &format!("mh-acceptance-stream-shared {tag}"), "acceptance generator")?;
@@ -214,7 +249,20 @@ fn check(c: &Case, cov: &mut Cov) -> CheckResult {
             }
             mini_mcmc::verif::hmc_trace_start();
             s.step();
+            s.step();
             let tr = mini_mcmc::verif::hmc_trace_take();
+            // no random number is consumed twice: all momentum entries of two consecutive steps
+            // are pairwise different, and so are all uniforms
+            let mut all: Vec<u64> = tr.iter().flat_map(|r| r.momenta.iter().map(|v| v.to_bits())).collect();
+            let total = all.len();
+            all.sort();
+            all.dedup();
+            ensure!(all.len() == total, &format!("hmc-momentum-reused-across-steps {tag}"), "momentum entries repeat across two consecutive HMC steps ({} distinct of {total})", all.len());
+            let mut us2: Vec<u64> = tr.iter().flat_map(|r| r.uniforms.iter().map(|v| v.to_bits())).collect();
+            let ut = us2.len();
+            us2.sort();
+            us2.dedup();
+            ensure!(us2.len() == ut, &format!("hmc-uniform-shared {tag}"), "acceptance uniforms repeat across two consecutive HMC steps");
             let rec = &tr[0];
             let mom: Vec<Vec<u64>> = (0..n).map(|r| rec.momenta[r * 2..r * 2 + 2].iter().map(|v| v.to_bits()).collect()).collect();
             pairwise_distinct(&mom, &format!("hmc-momentum-shared {tag}"), "momentum row")?;
@@ -238,6 +286,27 @@ fn check(c: &Case, cov: &mut Cov) -> CheckResult {
             }
             let gens: Vec<[u64; 2]> = s.verif_chains().iter().map(|ch| peek(&ch.verif_rng())).collect();
             pairwise_distinct(&gens, &format!("nuts-stream-shared {tag}"), &format!("NUTS chain generator (seed {})", c.seed))?;
+            // no chain's generator may be another chain's generator advanced by a few thousand
+            // outputs (streams that are offsets into one sequence overlap in long runs)
+            {
+                let starts: std::collections::HashMap<(u64, u64), usize> = gens.iter().enumerate().map(|(j, g)| ((g[0], g[1]), j)).collect();
+                for (i, ch) in s.verif_chains().iter().enumerate().take(4) {
+                    let mut r = ch.verif_rng();
+                    let mut prev = r.next_u64();
+                    for step in 1..(1u32 << 14) {
+                        let cur = r.next_u64();
+                        if let Some(j) = starts.get(&(prev, cur)) {
+                            ensure!(
+                                *j == i,
+                                &format!("nuts-stream-overlap {tag}"),
+                                "NUTS chain {i}'s generator reaches the start state of chain {j}'s generator after {step} outputs: the chains consume the same random numbers in long runs (seed {})",
+                                c.seed
+                            );
+                        }
+                        prev = cur;
+                    }
+                }
+            }
             // one transition of a few chains: different trajectories
             let k = n.min(4);
             let mut after: Vec<Vec<u64>> = vec![];
@@ -271,5 +340,5 @@ pub fn run(ctx: &mut Ctx) {
     ctx.assume("distinctness of unseeded (OS-entropy) streams is probabilistic with collision probability ~2^-64 per pair");
     ctx.assume("Gibbs is excluded, as the property says");
     let t = ctx.tier;
-    ctx.section("streams", "pairwise distinct proposal noise / momenta / acceptance draws across chains; proposal generator never in the state of an acceptance generator; seeds handed to user proposals pairwise distinct", t.pick(20_000, 600_000), 16, strategy, check);
+    ctx.section("streams", "pairwise distinct proposal noise / momenta / acceptance draws across chains; proposal generator never in the state of an acceptance generator; seeds handed to user proposals pairwise distinct", t.pick(100_000, 3_000_000), 16, strategy, check);
 }
